@@ -502,6 +502,13 @@ def locate(fn, loc):
         if len(hits) <= loc[2]:
             raise Fail("%s: no augmented assignment #%d to %s" % (fn.name, loc[2], loc[1]), fn)
         return hits[loc[2]].value
+    if kind == "for_range":
+        # the single argument of the nth (source order) `for … in range(<expr>)`
+        hits = sorted((n for n in ast.walk(fn) if isinstance(n, ast.For) and isinstance(n.iter, ast.Call) and ast.unparse(n.iter.func) == "range"
+                       and len(n.iter.args) == 1 and not n.iter.keywords), key=lambda n: (n.lineno, n.col_offset))
+        if len(hits) <= loc[1]:
+            raise Fail("%s: no `for … in range(<expr>)` loop #%d" % (fn.name, loc[1]), fn)
+        return hits[loc[1]].iter.args[0]
     if kind == "slice_upper":
         # upper bound of the nth (source order) slice `base[lo:hi]`
         hits = sorted((n for n in ast.walk(fn) if isinstance(n, ast.Subscript) and isinstance(n.slice, ast.Slice) and ast.unparse(n.value) == loc[1]
@@ -520,6 +527,17 @@ def locate(fn, loc):
         # ("has_call", callee_suffix, min_count): does the function call `...callee_suffix(...)` at least min_count times?
         hits = [n for n in ast.walk(fn) if isinstance(n, ast.Call) and ast.unparse(n.func).endswith(loc[1])]
         return ast.copy_location(ast.Constant(len(hits) >= loc[2]), fn)
+    if kind == "except_catches":
+        # ("except_catches", name): does some `except` clause of the function name this exception class?
+        hits = []
+        for n in ast.walk(fn):
+            if isinstance(n, ast.Try):
+                for h in n.handlers:
+                    if h.type is not None:
+                        names = [ast.unparse(x) for x in (h.type.elts if isinstance(h.type, ast.Tuple) else [h.type])]
+                        if loc[1] in names:
+                            hits.append(h)
+        return ast.copy_location(ast.Constant(len(hits) >= 1), fn)
     if kind == "has_identity_test":
         # ("has_identity_test",): does the function compare objects with `is` / `is not` (other than against None)?
         hits = [n for n in ast.walk(fn) if isinstance(n, ast.Compare) and any(isinstance(o, (ast.Is, ast.IsNot)) for o in n.ops)
